@@ -405,6 +405,26 @@ func verifC06RootCause(q *verifC06Query, fk string, op *vs.Op, snapB, snapA *ver
 			}
 		}
 	}
+	// (5b) ServiceTopology embeds that catalog connect lookup (serviceNodesTxn on the connect index of its service):
+	// when a proxy registered under ANOTHER name joins or leaves the connect set, the embedded index switches between
+	// the last-extinction index (empty set) and service.<target> (non-empty set) instead of following the proxy's
+	// own index, so the topology index can stall or fall although (or while) its result is unchanged
+	if q.Fam == "ServiceTopology" && indexFail {
+		for _, pair := range [][2]map[string]string{{snapB.connFor, snapA.connFor}, {snapA.connFor, snapB.connFor}} {
+			for k, dest := range pair[0] {
+				if dest != q.Svc || !strings.HasPrefix(k, "|") || pair[1][k] == dest {
+					continue
+				}
+				name := snapA.inst[k]
+				if name == "" {
+					name = snapB.inst[k]
+				}
+				if name != q.Svc {
+					return verifC06KeyCatalogConn
+				}
+			}
+		}
+	}
 	// (5) Catalog connect lookup reports the index of the TARGET service name only, although its result consists of
 	// proxies / gateways registered under other names
 	if q.Fam == "ConnectServiceNodes" && indexFail && fk != "unchanged-index-regress" {
@@ -839,6 +859,14 @@ func verifC06Witnesses() map[string]verifC06Witness {
 		"witness-catalog-connect": {verifC06KeyCatalogConn, []*vs.Op{
 			reg(11, "n1", "", plain("web")),
 			reg(12, "n1", "", proxy("web")),
+		}},
+		// same root cause with an older extinction: ConnectServiceNodes(db) [] index 13 (extinction of api) -> [db-proxy-1]
+		// index 11 (service.db); ServiceTopology(db) embeds the lookup and falls with an unchanged result
+		"witness-catalog-connect-extinction-to-target-index": {verifC06KeyCatalogConn, []*vs.Op{
+			reg(11, "n1", "", plain("db")),
+			reg(12, "n2", "", plain("api")),
+			vs.NewDereg(vs.DeregService, 13, "n2", "api-1", ""),
+			reg(14, "n3", "", proxy("db")),
 		}},
 		// NodeServices(<id of n1>): node + services, index 11 -> nothing, index 1
 		"witness-node-id-removed": {verifC06KeyNodeIDGone, []*vs.Op{
